@@ -14,6 +14,7 @@ type genOpts struct {
 	names            []string
 	jumbo            bool
 	lowBalance       bool
+	mixCompliant     bool // some containers report a share of the last grant (also all of it), others an absolute volume
 	bigCost          bool // unit costs up to 2^24 too, with volumes kept small enough for every price to fit 32 bits
 }
 
@@ -120,7 +121,7 @@ func genUUs(t *rapid.T, o genOpts, create bool, cap int32) []UU {
 				if o.offline {
 					c.Q = rapid.SampledFrom([]string{"online", "online", "online", "offline", "suspended"}).Draw(t, "q")
 				}
-				if o.compliant {
+				if o.compliant || (o.mixCompliant && rapid.Bool().Draw(t, "share")) {
 					// shares of the last grant that together never exceed it
 					c.Pm = rapid.SampledFrom([]int{0, 1000 / nc, 1000 / nc, 500 / nc, 100 / nc, 999 / nc}).Draw(t, "pm")
 				} else {
